@@ -187,3 +187,61 @@ func (s *Snapshot) walkStruct(path string, sv reflect.Value, depth int) {
 		s.walk(path+"."+sf.Name, sv.Field(i), depth)
 	}
 }
+
+// OddShape puts the same odd-but-constructible state into every copy (plain
+// reflect, no call into the generated code). Reads may panic on such states
+// (another property's business) but must not write. kind: 0 a message-valued
+// map entry holding a nil pointer, 1 a oneof field holding a typed-nil wrapper
+// pointer, 2 a oneof wrapper whose message member is nil. sel picks the field.
+// It reports whether the shape could be applied.
+func OddShape(kind, sel int, copies ...proto.Message) bool {
+	first := reflect.ValueOf(copies[0]).Elem()
+	st := first.Type()
+	var cands []int
+	for i := 0; i < st.NumField(); i++ {
+		f := first.Field(i)
+		if st.Field(i).PkgPath != "" {
+			continue
+		}
+		switch kind {
+		case 0:
+			if f.Kind() == reflect.Map && f.Type().Elem().Kind() == reflect.Pointer && f.Len() > 0 {
+				cands = append(cands, i)
+			}
+		case 1:
+			if f.Kind() == reflect.Interface && st.Field(i).Tag.Get("protobuf_oneof") != "" && !f.IsNil() {
+				cands = append(cands, i)
+			}
+		case 2:
+			if f.Kind() == reflect.Interface && st.Field(i).Tag.Get("protobuf_oneof") != "" && !f.IsNil() {
+				w := f.Elem()
+				if w.Kind() == reflect.Pointer && !w.IsNil() && w.Elem().NumField() == 1 && w.Elem().Field(0).Kind() == reflect.Pointer {
+					cands = append(cands, i)
+				}
+			}
+		}
+	}
+	if len(cands) == 0 {
+		return false
+	}
+	fi := cands[sel%len(cands)]
+	var key reflect.Value
+	if kind == 0 {
+		keys := first.Field(fi).MapKeys()
+		sort.Slice(keys, func(i, j int) bool { return lessAny(keys[i], keys[j]) })
+		key = keys[(sel/7)%len(keys)]
+	}
+	for _, c := range copies {
+		f := reflect.ValueOf(c).Elem().Field(fi)
+		switch kind {
+		case 0:
+			f.SetMapIndex(key, reflect.Zero(f.Type().Elem()))
+		case 1:
+			f.Set(reflect.Zero(f.Elem().Type())) // typed-nil wrapper pointer inside the interface
+		case 2:
+			inner := f.Elem().Elem().Field(0)
+			inner.Set(reflect.Zero(inner.Type()))
+		}
+	}
+	return true
+}
